@@ -423,6 +423,10 @@ void namePlainRegion(const void* addr, size_t bytes, size_t elemSize, const char
 void noPreempt(bool on) { if (G.active && self) self->noPreempt += on ? 1 : -1; }
 long backstopsSoFar() { return G.info.backstopsFired; }
 long timeoutsSoFar() { return G.info.timeoutsFired; }
+static int g_cells[1 << 17];
+void cellSet(int i, int v) { g_cells[i & ((1 << 17) - 1)] = v; }
+int cellGet(int i) { return g_cells[i & ((1 << 17) - 1)]; }
+void cellsClear(int from, int n) { for (int i = 0; i < n; ++i) g_cells[(from + i) & ((1 << 17) - 1)] = 0; }
 static long g_ghost[32];
 void ghostAdd(int slot, long delta) { g_ghost[slot & 31] += delta; }
 long ghostGet(int slot) { return g_ghost[slot & 31]; }
